@@ -235,3 +235,43 @@ def c16(ctx):
     cov, mn = P.generic_harness_check(ctx, "C16_keyring", rule, assumptions, exhaustive=True, env_extra=LEAK_ENV,
                                       min_nontrivial={"quick": 5000, "thorough": 100000})
     return P.finish(ctx, "exploration", cov, assumptions, mn)
+
+
+# ---------------------------------------------------------------- C10
+harness_job("C10_builder")
+std_replayer("C10", "C10_builder")
+
+
+@P.check("C10")
+def c10(ctx):
+    """builder model: stateful op sequences interleaved with generate; tokens decoded by an independent reader"""
+    rule = ("rapidcheck: sequences (1-26) of header_set/del, claim_set/del (typed and JSON values, names incl. alg typ iat nbf exp kid), enable_iat, time_offset "
+            "(<=0, >0, invalid claim), setkey (none/alg x NULL/private/public/weak key, with and without alg attr), setcb (none, mutating, key-selecting, "
+            "public-key-selecting, key+alg-selecting, failing), clock jumps, error_clear, interleaved with generate, on either provider. Oracle: reference model of the "
+            "statement: each output is h.p.s, each part strict unpadded base64url, h and p JSON objects json_equal to the model (alg forced, typ default on signed tokens only, "
+            "iat/nbf/exp = clock+offset overriding builder claims, callback edits in that token only), s empty iff alg none else valid under the configured key by an "
+            "independent verifier; generate fails exactly where the statement says (public key, failing callback, pair outside the table, unusable key); builder state "
+            "unchanged by generating; return codes of configuration calls. Non-trivial = sequence with >=2 generates and an overriding claim, a user alg/typ header, a mutating "
+            "callback or an offset change between generates; distinct by hash of the operation list.")
+    assumptions = ["controlled clock via link-time wrap of time()", "reference verifier on raw OpenSSL EVP", "values are valid UTF-8; names non-empty (C15 covers the rest)"]
+    cov, mn = P.generic_harness_check(ctx, "C10_builder", rule, assumptions, min_nontrivial={"quick": 3000, "thorough": 50000})
+    return P.finish(ctx, "exploration", cov, assumptions, mn)
+
+
+# ---------------------------------------------------------------- C13
+harness_job("C13_history")
+std_replayer("C13", "C13_history")
+
+
+@P.check("C13")
+def c13(ctx):
+    """no hidden state: reused checker/builder vs fresh identically configured object after every verify/generate"""
+    rule = ("rapidcheck: histories (1-40 steps) on one long-lived checker (setkey, claim_set/del, time_leeway, setcb none/key-selecting/failing/token-mutating, clock, error_clear, "
+            "verify of a token from a classified pool: valid HS256/ES256/none, bad signature, expired, nbf in future, wrong iss, malformed at each parse stage, missing/unknown alg, "
+            "none with signature, NULL, empty) or one long-lived builder (the C10 operation alphabet incl. failing callbacks, public/weak/mismatched keys). After every "
+            "verify/generate a fresh object is built, every configuration call made so far is replayed on it, and the same call is made at the same clock: return value and "
+            "error flag must agree; tokens byte-equal for deterministic algorithms, header.payload equal otherwise. Message text is compared and histogrammed, not asserted. "
+            "Non-trivial = sequence containing a call whose predecessor on the same object ended in the other verdict class without error_clear in between; distinct by hash of the operation list.")
+    assumptions = ["the harness callback's own counter is copied to the fresh object (it is not library state)", "provider is not switched inside a sequence"]
+    cov, mn = P.generic_harness_check(ctx, "C13_history", rule, assumptions, min_nontrivial={"quick": 2000, "thorough": 20000})
+    return P.finish(ctx, "exploration", cov, assumptions, mn)
